@@ -1075,6 +1075,7 @@ func propC03(c *Ctx) string {
 	c03Ship(c)
 	c03WS(c)
 	c03WSLimit(c)
+	c02Pool(c, "C03/POOL")
 	c01Const(c, "C03/DETECT")
 	c.NotDecide("identical packets under every fragmentation/coalescing of the byte stream (behaviour of bufio.Reader, io.ReadFull)", "wire bytes == concatenation of encodings under async flush timing (mercury.Writer)", "WebSocket message stitching beyond the reader-switch rule (gorilla/websocket)")
 	c.Assume("bufio.Reader.Peek/io.ReadFull semantics", "mercury.Writer is a FIFO byte stream")
